@@ -24,6 +24,8 @@ class Num (N : Type) where
   toInt32 : N → Option Int
   /-- `Convert::ToString(double)` (lib/base/convert.cpp:20-31). -/
   toStr : N → String
+  /-- `stream << std::fixed << double` (ConfigWriter::EmitNumber): always six fraction digits. -/
+  toFixed : N → String
 
 /-- Exact instance used by the kernel-checked examples (division truncates; not used by the driver). -/
 instance : Num Int where
@@ -37,6 +39,7 @@ instance : Num Int where
   le a b := decide (a ≤ b)
   toInt32 a := if -2147483648 ≤ a ∧ a ≤ 2147483647 then some a else none
   toStr a := toString a
+  toFixed a := toString a ++ ".000000"
 
 abbrev Addr := Nat
 
@@ -108,6 +111,8 @@ inductive ErrKind
   | args         -- "Too few arguments for function"
   | range        -- "String index is out of range"
   | noassign     -- "Expression cannot be assigned to."
+  | frozen       -- "Namespace is read-only and must not be modified."
+  | tonumber     -- "Can't convert '…' to a floating point number."
   | user         -- thrown by `throw` (message compared literally)
   deriving DecidableEq, Repr
 
@@ -115,7 +120,7 @@ def ErrKind.name : ErrKind → String
   | .stack => "stack" | .optype => "optype" | .divzero => "divzero" | .undefvar => "undefvar"
   | .notcallable => "notcallable" | .badfield => "badfield" | .bounds => "bounds" | .inrhs => "inrhs"
   | .fortype => "fortype" | .setnull => "setnull" | .notobject => "notobject" | .badcast => "badcast"
-  | .args => "args" | .range => "range" | .noassign => "noassign" | .user => "user"
+  | .args => "args" | .range => "range" | .noassign => "noassign" | .frozen => "frozen" | .tonumber => "tonumber" | .user => "user"
 
 inductive Err where
   | script (k : ErrKind) (msg : String)   -- catchable by try/except (everything derived from std::exception)
@@ -154,13 +159,6 @@ def Value.toStr : Value N → String
   | .str s => s
   | v => v.ty.objString
 
-/-- Arrays and dictionaries print themselves as config text (`Array::ToString` → ConfigWriter, recursing without a
-    cycle check — finding F-C15e); the model does not reproduce that text: `none`. -/
-def Value.toStr? : Value N → Option String
-  | .arr _ => none
-  | .dict _ => none
-  | v => some v.toStr
-
 def opTypeErr (op : String) (l r : Value N) : Err :=
   .script .optype ("Operator " ++ op ++ " cannot be applied to values of type '" ++ l.ty.name ++ "' and '" ++ r.ty.name ++ "'")
 
@@ -191,16 +189,17 @@ def ofU32 (n : Nat) : Int := wrap32 (Int.ofNat (n % 4294967296))
 inductive IntOp | mod | xor | band | bor | shl | shr
   deriving DecidableEq, Repr
 
-/-- `static_cast<int>(lhs) OP static_cast<int>(rhs)`; `none` = undefined behaviour in C++
-    (operand not representable, shift count outside 0..31, shift of a negative value, INT_MIN % -1). -/
+/-- `static_cast<int>(lhs) OP static_cast<int>(rhs)`; `none` = undefined (shift count outside 0..31, INT_MIN % -1).
+    Signed shifts with an in-range count follow GCC's documented behaviour (the object code under test is built with it):
+    `<<` wraps modulo 2^32, `>>` of a negative value is arithmetic. -/
 def intOp (op : IntOp) (a b : Int) : Option Int :=
   match op with
   | .mod => if b == 0 then none else if a == -2147483648 && b == -1 then none else some (Int.tmod a b)
   | .xor => some (ofU32 (toU32 a ^^^ toU32 b))
   | .band => some (ofU32 (toU32 a &&& toU32 b))
   | .bor => some (ofU32 (toU32 a ||| toU32 b))
-  | .shl => if 0 ≤ b && b < 32 && 0 ≤ a && a * (2 ^ b.toNat) ≤ 2147483647 then some (a * (2 ^ b.toNat)) else none
-  | .shr => if 0 ≤ b && b < 32 && 0 ≤ a then some (a / (2 ^ b.toNat)) else none
+  | .shl => if 0 ≤ b && b < 32 then some (wrap32 (a * (2 ^ b.toNat))) else none
+  | .shr => if 0 ≤ b && b < 32 then some (Int.fdiv a (2 ^ b.toNat)) else none
 
 /-- result of a scalar binary operator: a value, an error, or "needs the heap" (arrays/dictionaries). -/
 inductive OpRes (N : Type) where
@@ -305,7 +304,7 @@ def binScalar (op : BinOp) (l r : Value N) : OpRes N :=
               | none => .err (.unmodelled "static_cast<int> %")
             | .str s => if s == "" then .val (.num (Num.ofInt 0))
               else .err (.unmodelled "lexical_cast<double>(string) %")
-            | _ => .err (.unmodelled "lexical_cast<double>(object) %")
+            | _ => .err (.script .tonumber "Can't convert object to a floating point number.")
     else .err (opTypeErr "%" l r)
   | .xor => intBin "&" .xor l r      -- :416 (sic: the message of ^ says '&')
   | .band => intBin "&" .band l r
